@@ -1,6 +1,7 @@
 package main
 
 import (
+	"fmt"
 	"gonum.org/v1/gonum/mat"
 	"gonum.org/v1/gonum/verifx/vrt"
 )
@@ -13,9 +14,9 @@ func tr(m mat.Matrix) mat.Triangular { return m.(mat.Triangular) }
 var (
 	mSymAdd     = &method{name: "SymDense.AddSym", pos: ab, call: func(r any, o []mat.Matrix, _ *caseSpec) { sd(r).AddSym(sy(o[0]), sy(o[1])) }}
 	mSymScale   = &method{name: "SymDense.ScaleSym", pos: aOnly, call: func(r any, o []mat.Matrix, cs *caseSpec) { sd(r).ScaleSym(cs.alpha, sy(o[0])) }}
-	mSymCopy    = &method{name: "SymDense.CopySym", pos: aOnly, copyLike: true, call: func(r any, o []mat.Matrix, _ *caseSpec) { sd(r).CopySym(sy(o[0])) }}
+	mSymCopy    = &method{name: "SymDense.CopySym", pos: aOnly, copyLike: true, call: func(r any, o []mat.Matrix, cs *caseSpec) { cs.status = fmt.Sprint(sd(r).CopySym(sy(o[0]))) }}
 	mSymSubset  = &method{name: "SymDense.SubsetSym", pos: aOnly, call: func(r any, o []mat.Matrix, cs *caseSpec) { sd(r).SubsetSym(sy(o[0]), cs.idx) }}
-	mSymPowPSD  = &method{name: "SymDense.PowPSD", pos: aOnly, call: func(r any, o []mat.Matrix, cs *caseSpec) { _ = sd(r).PowPSD(sy(o[0]), 2) }}
+	mSymPowPSD  = &method{name: "SymDense.PowPSD", pos: aOnly, errOp: 1, call: func(r any, o []mat.Matrix, cs *caseSpec) { cs.status = errClass(sd(r).PowPSD(sy(o[0]), 2)) }}
 	mSymRankOne = &method{name: "SymDense.SymRankOne", pos: []string{"a", "x"}, call: func(r any, o []mat.Matrix, cs *caseSpec) {
 		sd(r).SymRankOne(sy(o[0]), cs.alpha, vv(o[1]))
 	}}
@@ -31,8 +32,8 @@ var (
 
 	mTriMul     = &method{name: "TriDense.MulTri", pos: ab, call: func(r any, o []mat.Matrix, _ *caseSpec) { td(r).MulTri(tr(o[0]), tr(o[1])) }}
 	mTriScale   = &method{name: "TriDense.ScaleTri", pos: aOnly, call: func(r any, o []mat.Matrix, cs *caseSpec) { td(r).ScaleTri(cs.alpha, tr(o[0])) }}
-	mTriInverse = &method{name: "TriDense.InverseTri", pos: aOnly, call: func(r any, o []mat.Matrix, _ *caseSpec) { _ = td(r).InverseTri(tr(o[0])) }}
-	mTriCopy    = &method{name: "TriDense.Copy", pos: aOnly, copyLike: true, call: func(r any, o []mat.Matrix, _ *caseSpec) { td(r).Copy(o[0]) }}
+	mTriInverse = &method{name: "TriDense.InverseTri", pos: aOnly, errOp: 1, call: func(r any, o []mat.Matrix, cs *caseSpec) { cs.status = errClass(td(r).InverseTri(tr(o[0]))) }}
+	mTriCopy    = &method{name: "TriDense.Copy", pos: aOnly, copyLike: true, call: func(r any, o []mat.Matrix, cs *caseSpec) { cs.status = fmt.Sprint(td(r).Copy(o[0])) }}
 )
 
 var otherSym = []kind{kSym, kBasicSym, kDiag}
